@@ -28,6 +28,12 @@ func (self *FieldsMatcher) CheckContainerPreConstraints(r *ChildRequest) (bool, 
 	if r.IsNavigation() {
 		return true, nil
 	}
+	if !self.reverse {
+		// containers on the way to a selected path are entered
+		if x, ok := self.selector.(*PathMatchExpression); ok {
+			return x.PathLeadsToMatch(r.Base, r.Path), nil
+		}
+	}
 	return self.selector.PathMatches(r.Base, r.Path) != self.reverse, nil
 }
 
